@@ -89,4 +89,15 @@ example : Spec.eval true env0 20
 example : Spec.eval true env0 20 (.seq [.PUSH .string (.str [97]), .FAILWITH]) [] = .failed (.str [97]) := by
   simp [Spec.eval, Spec.evalSeq, Spec.step, Res.bind]
 
+-- right combs: PAIR n, GET n (k CDRs), UPDATE n, UNPAIR n, and the identity cases `GET 0` / `UPDATE 0` on non-pairs
+example : Spec.eval true env0 20
+    (.seq [.PUSH .int (.num .int 3), .PUSH .nat (.num .nat 2), .UNIT, .PAIRN 3, .DUP, .GETN 4, .UPDATEN 1, .UNPAIRN 3]) []
+    = .ok [.num .int 3, .num .nat 2, .num .int 3] := by
+  simp [Spec.eval, Spec.evalSeq, Spec.step, Spec.pairN, Spec.getN, Spec.updateN, Spec.unpairN, Res.bind]
+example : Spec.eval true env0 20 (.seq [.UNIT, .GETN 0, .PUSH .int (.num .int 1), .UPDATEN 0]) [] = .ok [.num .int 1] := by
+  simp [Spec.eval, Spec.evalSeq, Spec.step, Spec.getN, Spec.updateN, Res.bind]
+example : Impl.run env0 20 (.seq [.PUSH .int (.num .int 3), .PUSH .nat (.num .nat 2), .UNIT, .PAIRN 3, .UNPAIRN 2]) []
+    = .ok [.unit, .pair (.num .nat 2) (.num .int 3)] :=
+  run_ok env0 20 _ [] _ (by simp [Spec.eval, Spec.evalSeq, Spec.step, Spec.pairN, Spec.unpairN, Res.bind])
+
 end C01
